@@ -109,3 +109,53 @@ def run(module, func, cases, timeout=30.0, workers=None, startup=120.0):
 
 def run_one(module, func, case, timeout=30.0):
     return run(module, func, [case], timeout=timeout, workers=1)[0]
+
+
+class Session:
+    """One persistent worker for sequential calls (shrinking, replays): avoids paying the
+    import time of the real code for every call. A timed-out call kills and restarts it."""
+
+    def __init__(self, module, func):
+        self.module, self.func = module, func
+        self.c = None
+
+    def call(self, case, timeout=30.0, startup=120.0):
+        fresh = self.c is None
+        if fresh:
+            self.c = _Child(self.module, self.func)
+        c = self.c
+        c.send(0, case, timeout + (startup if fresh else 0.0))
+        while True:
+            wait = c.busy[1] - time.time()
+            if wait <= 0:
+                c.kill()
+                self.c = None
+                return {"timeout": True}
+            rl, _, _ = select.select([c.p.stdout], [], [], min(wait, 1.0))
+            if rl:
+                chunk = os.read(c.p.stdout.fileno(), 1 << 20)
+                if not chunk:
+                    code = c.p.poll()
+                    c.kill()
+                    self.c = None
+                    return {"crash": "worker exited with %s" % code}
+                c.buf += chunk
+                if b"\n" in c.buf:
+                    line, c.buf = c.buf.split(b"\n", 1)
+                    c.busy = None
+                    return json.loads(line)
+
+    def close(self):
+        if self.c is not None:
+            try:
+                self.c.p.stdin.close()
+            except Exception:
+                pass
+            self.c.kill()
+            self.c = None
+
+    def __enter__(self):
+        return self
+
+    def __exit__(self, *a):
+        self.close()
